@@ -332,7 +332,9 @@ func (idx *Index) DiffWithTree(tree *object.Tree) ([]*DiffEntry, error) {
 	}
 
 	var diffEntries []*DiffEntry
+	treePaths := make(map[string]struct{}, len(gotEntries))
 	for _, gotEntry := range gotEntries {
+		treePaths[string(gotEntry.Path)] = struct{}{}
 		_, entry, isRegistered := idx.GetEntry(gotEntry.Path)
 		if !isRegistered {
 			diffEntries = append(diffEntries, &DiffEntry{
@@ -348,9 +350,9 @@ func (idx *Index) DiffWithTree(tree *object.Tree) ([]*DiffEntry, error) {
 	}
 
 	// check if there are new files
+	// (an entry is new unless the tree holds a FILE of that path: a directory of the same name does not count)
 	for _, entry := range idx.Entries {
-		_, isFound := object.GetNode(tree.Children, string(entry.Path))
-		if !isFound {
+		if _, isFound := treePaths[string(entry.Path)]; !isFound {
 			diffEntries = append(diffEntries, &DiffEntry{
 				Dt:    diffNew,
 				Entry: entry,
